@@ -37,7 +37,7 @@ func stepKindName(k int) string {
 // P1's view after applying every broadcast it was sent must equal what P2 is handed, and every broadcast
 // P1 was sent must have been applicable to its view.
 func VerifC01Step() {
-	c01Step(stepShape{mods: vModVikja | vModOdal, preset: verifnd.Choice(3), symIDs: true})
+	c01Step(stepShape{mods: vModVikja | vModOdal, preset: verifnd.Choice(3), symIDs: true, prior: verifnd.Bool()})
 }
 
 // VerifC01StepFree: same with every presence bit of the pre-state chosen freely and no modules / all modules.
